@@ -18,11 +18,12 @@ Tokens are abstracted to what the code looks at. The skipping loops only ask
 command *with its tag* (`command/mod.rs`), so an alias of a conditional primitive is the same
 model token, and a control sequence called `\else` that was redefined as a macro is `other`.
 An `iff` token stands for the if-tagged command *together with* the operands its condition
-will parse when it is expanded (number scanning is glue: exercised by the correspondence,
-not modelled).
+will parse when it is expanded; the scanning of the operands from tokens is modelled in
+`Model/C07Scan.lean` and connected to this machine by the theorems `operands_*`.
 
-The model is written for the code *with* `fixes/C07-a.patch` and `fixes/C07-f.patch`
-applied; the two pre-fix formulas are kept below as `ifoddPreFix` and `caseCounterPreFix`.
+The model describes /repo as it is: the fixes C07-a (9bf500c), C09-f (14f0dd0) and C07-g
+(137cece) are applied there; the two pre-fix formulas are kept below as `ifoddPreFix` and
+`caseCounterPreFix`, as refutation witnesses only.
 -/
 namespace C07
 
@@ -60,7 +61,7 @@ inductive BranchKind | tru | els | switch
 truncating remainder `Int.tmod`. -/
 def ifodd (n : Int) : Bool := n.tmod 2 != 0
 
-/-- `IfOdd::evaluate` as it stands before the fix: `(n % 2) == 1` — false for negative odd `n`
+/-- `IfOdd::evaluate` as it stood before fix C07-a: `(n % 2) == 1` — false for negative odd `n`
 because `n % 2 = -1` there. -/
 def ifoddPreFix (n : Int) : Bool := n.tmod 2 == 1
 
